@@ -171,11 +171,14 @@ func checkNetwork(c *vm.Ctx, r *vm.Rand, ch *level.Chunk, d *chunkDesc) {
 		return
 	}
 	dst := level.EmptyChunk(d.secs)
+	former := make([][]int, d.secs) // states the receiving chunk held before the read
 	if r.Bool() {
-		// a previously used chunk
+		// a previously used chunk (20..250 distinct states per section: every indirect palette width)
 		for si := range dst.Sections {
-			for j := 0; j < 20; j++ {
-				dst.Sections[si].SetBlock(r.Intn(4096), level.BlocksState(r.Intn(nStates)))
+			for j := []int{3, 20, 40, 100, 250}[r.Intn(5)]; j > 0; j-- {
+				v := r.Intn(nStates)
+				former[si] = append(former[si], v)
+				dst.Sections[si].SetBlock(r.Intn(4096), level.BlocksState(v))
 			}
 		}
 		dst.BlockEntity = make([]level.BlockEntity, 5)
@@ -232,6 +235,65 @@ func checkNetwork(c *vm.Ctx, r *vm.Rand, ch *level.Chunk, d *chunkDesc) {
 			c.Cover("net.with-block-entities")
 		}
 	}
+	if !ok {
+		return
+	}
+	// the received chunk keeps being edited: states it held before the read, states it received, air and new ones.
+	// Every position must then hold what was last set and the block count must equal the number of non-air blocks.
+	c.Guard("net/edit-after-read", d.wit, func() {
+		for si := range dst.Sections {
+			sec := &dst.Sections[si]
+			model := make([]int, 4096)
+			var received []int
+			for i := range model {
+				model[i] = int(ch.Sections[si].GetBlock(i))
+				if i%97 == 0 {
+					received = append(received, model[i])
+				}
+			}
+			var ops []string
+			for j := 0; j < 40; j++ {
+				i := r.Intn(4096)
+				var v int
+				switch k := r.Intn(8); {
+				case k < 4 && len(former[si]) > 0:
+					v = former[si][r.Intn(len(former[si]))]
+				case k < 6:
+					v = received[r.Intn(len(received))]
+				case k == 6:
+					v = 0
+				default:
+					v = r.Intn(nStates)
+				}
+				sec.SetBlock(i, level.BlocksState(v))
+				model[i] = v
+				ops = append(ops, fmt.Sprintf("SetBlock(%d,%d)", i, v))
+			}
+			nonAir := 0
+			for i, want := range model {
+				if got := int(sec.GetBlock(i)); got != want {
+					w := d.wit().(map[string]any)
+					w["section"], w["edits_after_read"], w["receiver_was_used"] = si, ops, len(former[si]) > 0
+					c.Violation("net/edit-after-read/block", fmt.Sprintf("section %d: after reading the chunk and %d SetBlock calls, GetBlock(%d)=%d, last set/received value is %d", si, len(ops), i, got, want), w)
+					return
+				}
+				if !block.IsAir(block.StateID(want)) {
+					nonAir++
+				}
+			}
+			if int(sec.BlockCount) != nonAir {
+				w := d.wit().(map[string]any)
+				w["section"], w["edits_after_read"] = si, ops
+				c.Violation("net/edit-after-read/block-count", fmt.Sprintf("section %d: BlockCount=%d, the section holds %d non-air blocks", si, sec.BlockCount, nonAir), w)
+				return
+			}
+		}
+		if len(former[0]) > 0 {
+			c.Cover("net.edit-after-read.used-receiver")
+		} else {
+			c.Cover("net.edit-after-read.fresh-receiver")
+		}
+	})
 }
 
 var hmNames = []string{"WORLD_SURFACE_WG", "WORLD_SURFACE", "OCEAN_FLOOR_WG", "OCEAN_FLOOR", "MOTION_BLOCKING", "MOTION_BLOCKING_NO_LEAVES"}
